@@ -12,11 +12,14 @@ func init() {
 				{Name: "convertArguments", Pkg: "ti/cmd/rbs2json", Entry: "VerifConvertArgs", N: n, Budget: 800000, Reach: []string{"converted", "called"},
 					Asserts: []string{"C25-deterministic", "C25-count", "C25-order", "C25-type", "C25-arity"}, Replay: "kernel", Cross: true, Stubs: fmtStubs,
 					Bound: sprintf("RBS function type with <=2 required, <=1 optional, optional rest, <=1 trailing positionals, <=2 required and <=2 optional keywords; iteration order of both keyword maps chosen by the solver on each of two conversions; result loaded through builtin.parseArguments and called with <=%d positionals and every subset of the keywords", n)},
+				{Name: "convertDeclarations", Pkg: "ti/cmd/rbs2json", Entry: "VerifConvertDecls", N: 0, Budget: 2000000, Reach: []string{"converted"},
+					Asserts: []string{"C25-alias-emitted", "C25-alias-signature", "C25-new", "C25-nested", "C25-decl-deterministic"}, Replay: "kernel", Cross: true, Stubs: fmtStubs,
+					Bound: "one class declaration with a singleton method and an instance method (named alike or not) of solver-chosen arity 0-2 each, 6 alias shapes (single / chains of 2 and 3 singleton aliases, single / chain of 2 instance aliases, interleaved chains sharing names), initialize, an attribute and a nested class, converted twice by the real convertDeclarations"},
 			}
 		},
-		Functions:   []string{"ti/cmd/rbs2json.convertArguments", "ti/cmd/rbs2json.convertType", "ti/builtin.parseArguments", "ti/eval/method_evaluator.checkAndPropagateArgs"},
+		Functions:   []string{"ti/cmd/rbs2json.convertDeclarations", "ti/cmd/rbs2json.convertMethodDefinition", "ti/cmd/rbs2json.convertArguments", "ti/cmd/rbs2json.convertType", "ti/builtin.parseArguments", "ti/eval/method_evaluator.checkAndPropagateArgs"},
 		Assumptions: []string{"the `ruby` child process and JSON decoding are outside: the harness starts from the decoded RBS AST", "Go map iteration order is modelled as an arbitrary permutation chosen independently at each range statement (schedule variable)"},
 		Stubs:       []string{"message formatting helpers of the argument checker (as C07)"},
-		Outside:     "type mapping beyond class_instance Integer; convertDeclarations / writeOutput; more than 2 keywords of each class",
+		Outside:     "type mapping beyond class_instance Integer / String / void; writeOutput and the ruby child process; more than 2 keywords of each class; overloaded aliased methods",
 	})
 }
